@@ -211,7 +211,9 @@ class TcpConnection(object):
 
         if eventType & POLL_EVENT_TYPE.WRITE:
             self.__trySendBuffer()
-            if self.__state == CONNECTION_STATE.DISCONNECTED:
+            if self.__state != CONNECTION_STATE.CONNECTED:
+                # Disconnected - or already dialling again from the onDisconnected callback: the
+                # event belongs to the old socket, whose descriptor number the new one may have.
                 return
             event = POLL_EVENT_TYPE.READ | POLL_EVENT_TYPE.ERROR
             if len(self.__writeBuffer) > 0:
